@@ -37,6 +37,12 @@ def standard_configs(tier, crash=True, faults=0, write_faults=0, fault_methods=(
         cfg, pc = flow_cfg(2, 'free_absent', amounts=[1006000, 1006000], pay_outcomes=(oc,), payee_releases=False, deliver_after_response=True,
                            timers=False, eager_tasks=True)
         out.append(('2 consecutive sets, first pay ends %s' % oc, cfg, pc, {}))
+    if crash and 'crash' in two_sets:
+        # ... and the node restarts while the second set's attempt is still in flight: the replayed HTLC must find it
+        cfg, pc = flow_cfg(2, 'free_absent', amounts=[1006000, 1006000], pay_outcomes=('error:210',), pay_seq=((0, ('error:210',)), (1, ())),
+                           payee_releases=False, parts_can_fail=False, deliver_after_response=True, timers=False, eager_tasks=True,
+                           crash=1, crash_after_pays=2, crash_needs_live_part=True, max_total_parts=3)
+        out.append(('2 consecutive sets, first pay ends error:210, crash during the second attempt', cfg, pc, {}))
     if crash:
         cfg, pc = flow_cfg(1, 'free_absent', crash=1, pay_outcomes=('complete', 'failed'))
         out.append(('1 htlc, 1 crash', cfg, pc, {}))
